@@ -184,6 +184,43 @@ func run[T signal.SignalTypes](c *Case) (res kit.Result) {
 			res.Failf("%s: %s", what, d)
 			return
 		}
+		// The view is a buffer of its own: what is later done to its header (here: an
+		// Append of one frame, in place or growing) leaves the parent's header
+		// unchanged, and vice versa. Probed on throw-away copies of the situation,
+		// so the chain continues on untouched buffers.
+		{
+			proot := kit.Root[T](C, c.Kr)
+			pcur := proot
+			for _, ps := range c.Steps[:si] {
+				if 0 <= ps.S && ps.S <= ps.E && ps.E <= pcur.Capacity() {
+					pcur = pcur.Slice(ps.S, ps.E)
+				}
+			}
+			pchild := pcur.Slice(st.S, st.E)
+			ph, ch := kit.HdrOf(pcur), kit.HdrOf(pchild)
+			one := kit.Root[T](C, 1)
+			if p, v := kit.Try(func() { pchild.Append(one) }); p {
+				res.Failf("%s: Append of one frame through the new view panicked: %v", what, v)
+				return
+			}
+			if h := kit.HdrOf(pcur); h != ph {
+				res.Failf("%s: appending one frame through the view changed the parent's header from %+v to %+v (the view is not a buffer of its own)", what, ph, h)
+				return
+			}
+			if h := kit.HdrOf(pchild); h.Len != ch.Len+C {
+				res.Failf("%s: appending one frame through the view left its Len at %d, want %d", what, h.Len, ch.Len+C)
+				return
+			}
+			ch = kit.HdrOf(pchild)
+			if p, v := kit.Try(func() { pcur.Append(one) }); p {
+				res.Failf("%s: Append of one frame through the parent panicked: %v", what, v)
+				return
+			}
+			if h := kit.HdrOf(pchild); h != ch {
+				res.Failf("%s: appending one frame through the parent changed the view's header from %+v to %+v", what, ch, h)
+				return
+			}
+		}
 		cur, off, ln, cp = child, coff, cln, ccp
 	}
 	return
